@@ -11,6 +11,7 @@ import (
 	"context"
 	"errors"
 	"fmt"
+	"math"
 	"math/rand"
 	"sort"
 	"strings"
@@ -169,7 +170,79 @@ type scen struct {
 	flags   map[string]bool
 }
 
-var orderBase = []int{-1 << 31, -1000, -7, -2, -1, 0, 0, 1, 2, 3, 10, 11, 100, 1<<31 - 1}
+// orderBase: ordinary small orders (ties, negatives, gaps; 0 is also what the
+// API uses when the order argument is omitted or an explicit 0 is passed – the
+// real code treats both as order 0, and so does the model) plus boundary
+// values of int32 and of the platform int.
+var orderBase = []int{-1000, -7, -2, -1, 0, 0, 1, 2, 3, 10, 11, 100,
+	math.MaxInt32, -math.MaxInt32, math.MaxInt32 + 1, -(math.MaxInt32 + 1), math.MinInt32,
+	math.MaxInt, math.MaxInt - 1, math.MinInt, math.MinInt + 1}
+
+// farPairs: order pairs whose difference does not fit into an int (more than
+// math.MaxInt apart) – a comparator that subtracts orders is wrong on them.
+var farPairs = [][2]int{{math.MaxInt, math.MinInt}, {math.MaxInt, -2}, {math.MinInt, 1}, {math.MaxInt - 1, math.MinInt + 1},
+	{math.MaxInt, -1}, {0, math.MinInt}, {math.MaxInt32, math.MinInt}, {math.MaxInt, -(math.MaxInt32 + 1)}, {2, math.MinInt + 1}}
+
+// farApart reports |a-b| > math.MaxInt without overflowing.
+func farApart(a, b int) bool {
+	if a < b {
+		a, b = b, a
+	}
+	return a >= 0 && b < 0 && a > math.MaxInt+b
+}
+
+func hasFarPair(orders []int) bool {
+	for i, a := range orders {
+		for _, b := range orders[i+1:] {
+			if farApart(a, b) {
+				return true
+			}
+		}
+	}
+	return false
+}
+
+// genPool draws k distinct orders; in a third of the cases (k >= 2) the pool is
+// guaranteed to contain a pair more than math.MaxInt apart, mixed with
+// ordinary orders.
+func genPool(rng *rand.Rand, k int) []int {
+	var pool []int
+	seen := map[int]bool{}
+	add := func(o int) {
+		if !seen[o] {
+			seen[o] = true
+			pool = append(pool, o)
+		}
+	}
+	if rng.Intn(3) == 0 {
+		if k < 2 {
+			k = 2
+		}
+		fp := farPairs[rng.Intn(len(farPairs))]
+		add(fp[0])
+		add(fp[1])
+	}
+	for len(pool) < k {
+		if rng.Intn(3) == 0 {
+			add(orderBase[rng.Intn(len(orderBase))])
+		} else {
+			add(orderBase[rng.Intn(12)]) // the ordinary small ones
+		}
+	}
+	rng.Shuffle(len(pool), func(i, j int) { pool[i], pool[j] = pool[j], pool[i] })
+	return pool
+}
+
+// neighbour returns o-1, o or o+1 without wrapping around.
+func neighbour(rng *rand.Rand, o int) int {
+	switch d := rng.Intn(3) - 1; {
+	case d < 0 && o > math.MinInt:
+		return o - 1
+	case d > 0 && o < math.MaxInt:
+		return o + 1
+	}
+	return o
+}
 
 func (s *scen) tr(f string, a ...any) { s.trace = append(s.trace, fmt.Sprintf(f, a...)) }
 
@@ -207,7 +280,7 @@ func shutdownG(gs []gdump.G) (gdump.G, bool) {
 func (s *scen) pickOrder(allowNew bool) (int, bool) {
 	var o int
 	if allowNew && s.rng.Intn(5) < 2 {
-		o = orderBase[s.rng.Intn(len(orderBase))] + s.rng.Intn(3) - 1
+		o = neighbour(s.rng, orderBase[s.rng.Intn(len(orderBase))])
 	} else {
 		o = s.pool[s.rng.Intn(len(s.pool))]
 	}
@@ -444,15 +517,7 @@ func (s *scen) run() bool {
 	s.d = daemon.New()
 	s.reg = s.actor("registrar")
 	// order pool: ties, negatives, gaps
-	k := 1 + rng.Intn(5)
-	seen := map[int]bool{}
-	for len(s.pool) < k {
-		o := orderBase[rng.Intn(len(orderBase))]
-		if !seen[o] {
-			seen[o] = true
-			s.pool = append(s.pool, o)
-		}
-	}
+	s.pool = genPool(rng, 1+rng.Intn(5))
 	s.started = rng.Intn(20) != 0
 	s.useRun = s.started && rng.Intn(10) < 3
 
@@ -553,7 +618,7 @@ func (s *scen) run() bool {
 			old := fin[rng.Intn(len(fin))]
 			o, has := s.pickOrder(true)
 			for o == old.order {
-				o, has = o+1+rng.Intn(3), true
+				o, has = neighbour(rng, o), true
 			}
 			w := newWk(old.name, o, has)
 			err, pan, blocked := s.register(w)
@@ -836,6 +901,13 @@ func (s *scen) run() bool {
 		s.c.Distinct("nontrivial", strings.Join(ms, ",")+"|"+strings.Join(s.opened, ",")+"|"+strings.Join(fl, "+"))
 	}
 	s.c.Count("configurations", 1)
+	var liveOrders []int
+	for _, w := range atShutdown {
+		liveOrders = append(liveOrders, w.order)
+	}
+	if s.started && hasFarPair(liveOrders) {
+		s.c.Count("configs_with_far_order_pair", 1) // two workers live at shutdown whose orders are more than MaxInt apart
+	}
 	if s.c.WantSample() && len(dist) >= 2 && len(s.flags) >= 2 {
 		s.c.Sample(map[string]any{"cfg_seed": s.seed, "trace": s.trace})
 	}
